@@ -52,7 +52,16 @@ fn balance_is_sum_of_unspent() {
                     if sout > sin { witness(format!("run {}: change {} exceeds inputs {}: {:?}", run, sout, sin, trace)); }
                     if sin >= want as u128 && sout != sin - want as u128 { witness(format!("run {}: change {} != inputs {} - requested {}: {:?}", run, sout, sin, want, trace)); }
                 }
-                _ => { let cut = rng.below(20); w.remove_old_slips(cut); known.retain(|s| s.block_id >= cut); trace.push(format!("expire(<{})", cut)); }
+                _ => {
+                    let cut = rng.below(20); w.remove_old_slips(cut); trace.push(format!("expire(<{})", cut));
+                    // exactly the outputs created before the cut-off block are forgotten
+                    for s in known.iter() {
+                        let has = w.slips.contains_key(&s.get_utxoset_key());
+                        if s.block_id >= cut && !has { witness(format!("run {}: the wallet forgot an output of block {} when told to drop what is older than block {}: {:?}", run, s.block_id, cut, trace)); }
+                        if s.block_id < cut && has { witness(format!("run {}: the wallet kept an output of block {} when told to drop what is older than block {}: {:?}", run, s.block_id, cut, trace)); }
+                    }
+                    known.retain(|s| s.block_id >= cut);
+                }
             }
             if let Err(e) = balance_matches(&w) { witness(format!("run {}: {} after {:?}", run, e, trace)); }
         }
